@@ -520,6 +520,8 @@ static void _fsm_load_fsm_lw(struct fsm *fsm, const uint8_t *bm, uint64_t len) {
   _fsm_node_destroy(fsm->root);
   fsm->root = 0;
   fsm->fsmnum = 0;
+  fsm->lfbkoff = 0;
+  fsm->lfbklen = 0;
 
   for (uint64_t b = 0; b < len; ++b) {
     register uint8_t bb = bm[b];
@@ -867,8 +869,14 @@ static iwrc _fsm_blk_deallocate_lw(
     right = lfbkoff + fsm->lfbklen;
     hasright = 1;
   } else {
-    uint64_t maxoff = lfbkoff ? lfbkoff : (fsm->bmlen << 3);
+    /* The cached free block bounds the search only if it lies to the right of the released range. */
+    uint64_t maxoff = (lfbkoff > end_offset_blk) ? lfbkoff : (fsm->bmlen << 3);
     right = _fsm_find_next_set_bit(bmptr, end_offset_blk, maxoff, &hasright);
+    if (!hasright && (maxoff == (fsm->bmlen << 3)) && (end_offset_blk < maxoff)) {
+      /* Free tail up to the end of the bitmap */
+      right = maxoff;
+      hasright = 1;
+    }
   }
 
   if (hasleft) {
